@@ -23,7 +23,7 @@ RULE = (
 ASSUMPTIONS = ["the capture helper and the uberjob call are on one source line (same f_lineno)", "depth limit read from uberjob._util.traceback.MAX_TRACEBACK_DEPTH"]
 
 MODNAMES = ["gen_builder", "uberjob_pipelines", "uberjobx.build", "my.uberjob.jobs", "__main__"]
-KINDS = ["unpack_nested_gather", "call_in_genexpr", "nested_callerror", "src_read_shared", "call", "gather_explicit", "gather_implicit", "unpack", "reg_write", "reg_readback", "src_read", "src_noreg", "mtime_stored", "mtime_source", "mtime_unpack_item", "call_exit_chain",
+KINDS = ["call_multiline", "unpack_nested_gather", "call_in_genexpr", "nested_callerror", "src_read_shared", "call", "gather_explicit", "gather_implicit", "unpack", "reg_write", "reg_readback", "src_read", "src_noreg", "mtime_stored", "mtime_source", "mtime_unpack_item", "call_exit_chain",
          "gather_nested_set", "gather_nested_dictkey", "gather_nested_implicit", "gather_nested_deep"]
 
 
@@ -42,7 +42,10 @@ def gen_cases(tier, seed):
                     "srcdir": r.choice(["/verif/scratch/gen", "/verif/scratch/gen", "/opt/team/lib/python3.12/site-packages/teamplans", "/usr/lib/python3/dist-packages/jobs",
                                         "/home/u/IPython-notebooks/core-plans", "/srv/app/lib/uberjob_plans"]),
                     "at_import": r.random() < 0.15,
-                    "modname": r.choice(MODNAMES)})
+                    "modname": r.choice(MODNAMES),
+                    # call sites written over several source lines (the line of a frame is where its call expression STARTS, as sys._getframe says);
+                    # a program that has set sys.tracebacklimit to shorten Python's own tracebacks: symbolic tracebacks are not Python tracebacks
+                    "multiline": r.random() < 0.3, "tblimit": r.choice([None, None, None, None, 0, 1, 3])})
     for i in range(max(6, n // 200)):
         out.append({"seed": env.seed_for(seed, ID, tier, "concurrent_build", i), "kind": "concurrent_build", "n": 300, "depth": 0, "helper": False, "W": 1,
                     "srcdir": "/verif/scratch/gen"})  # __name__ of the user's builder module (nothing about uberjob may depend on it)  # run with registry.copy(): the copy must attribute failures to the same lines
@@ -51,6 +54,7 @@ def gen_cases(tier, seed):
 
 CREATE = {
     "call": "here('X'); node = plan.call(K.boom); K.out = node",
+    "call_multiline": "here('X'); node = plan.call(\n{ind}    K.boom_args, 1,\n{ind}    2,\n{ind}    k=[3,\n{ind}       4],\n{ind}); K.out = node",
     # created inside a generator expression: the innermost frame is <genexpr>, then the function that consumes it
     "call_in_genexpr": "t = tuple((here('X'), plan.call(K.boom))[1] for _ in range(1)); K.out = t[0]",
     # the plan's function fails with a CallError of ANOTHER plan (it ran a nested plan that failed): the error of THIS run names this call
@@ -94,7 +98,7 @@ def make_source(desc):
             lines.append("def helper(plan, registry, here, K):")
         lines.append("    " + body.format(ind="    "))
         lines.append("    return 1")
-        inner = "helper(plan, registry, here, K)"
+        inner = "helper(plan,\n        registry, here,\n        K)" if desc.get("multiline") else "helper(plan, registry, here, K)"
     else:
         inner = None
     for d in range(depth, -1, -1):
@@ -110,6 +114,10 @@ def make_source(desc):
                 lines.append(f"    exec(compile({inner_src!r}, {inner_name!r}, 'exec'), dict(plan=plan, registry=registry, here=here, K=K, __name__='pipeline_defs'))")
             else:
                 lines.append("    " + body.format(ind="    "))
+        elif desc.get("multiline"):
+            lines.append(f"    level{d + 1}(plan,")
+            lines.append("        registry,")
+            lines.append("        here, K)")
         else:
             lines.append(f"    level{d + 1}(plan, registry, here, K)")
         lines.append("    return None")
@@ -220,6 +228,10 @@ def run_case(desc):
             raise Boom("boom")
 
         @staticmethod
+        def boom_args(*a, **k):
+            raise Boom("boom")
+
+        @staticmethod
         def boom_exit(x):
             raise SystemExit(f"giving up on {x}")
 
@@ -305,6 +317,22 @@ def run_case(desc):
     plan = uberjob.Plan()
     registry = uberjob.Registry()
     err = []
+    had_tbl = hasattr(sys, "tracebacklimit")
+    old_tbl = getattr(sys, "tracebacklimit", None)
+    if desc.get("tblimit") is not None:
+        sys.tracebacklimit = desc["tblimit"]
+    try:
+        return _run_case_body(desc, ns, plan, registry, err, K, here, captured, src, LIMIT)
+    finally:
+        if had_tbl:
+            sys.tracebacklimit = old_tbl
+        elif hasattr(sys, "tracebacklimit"):
+            del sys.tracebacklimit
+
+
+def _run_case_body(desc, ns, plan, registry, err, K, here, captured, src, LIMIT):
+    import uberjob
+
     if desc["bare_thread"]:
         done = threading.Event()
 
@@ -349,7 +377,7 @@ def run_case(desc):
             got.append((sf.name, sf.path, sf.line))
             sf = sf.outer
         expected_fn = {"unpack_nested_gather": "gather_set", "call_in_genexpr": "boom", "nested_callerror": "boom_callerror", "src_read_shared": "read", "gather_nested_set": "gather_set", "gather_nested_dictkey": "gather_dict", "gather_nested_implicit": "gather_set", "gather_nested_deep": "gather_set",
-                       "call": "boom", "gather_explicit": "gather_set", "gather_implicit": "gather_set", "unpack": "unpack", "reg_write": "write",
+                       "call": "boom", "call_multiline": "boom_args", "gather_explicit": "gather_set", "gather_implicit": "gather_set", "unpack": "unpack", "reg_write": "write",
                        "reg_readback": "read", "src_read": "read", "src_noreg": "source", "mtime_stored": "ok", "mtime_source": "source", "mtime_unpack_item": "getitem", "call_exit_chain": "boom_exit"}[desc["kind"]]
         if getattr(call.fn, "__name__", None) != expected_fn:
             bad = f"CallError.call is a call to {getattr(call.fn, '__name__', call.fn)!r}, expected the failing {expected_fn!r} call"
